@@ -7,6 +7,7 @@ import MutagenModel.Model.FileTypes
 import MutagenModel.Proofs.Container.Id3FileLoad
 import MutagenModel.Proofs.Container.OggInjectLoad
 import MutagenModel.Proofs.Container.OggInjectTotal
+import MutagenModel.Proofs.Container.OggInjectLoadLink
 import MutagenModel.Proofs.Container.Mp4Total
 import MutagenModel.Proofs.Info.Mp4File
 set_option linter.unusedVariables false
@@ -127,32 +128,11 @@ theorem slowLastP_ok (f : Bytes) (serial : Nat) : ∀ (fuel pos : Nat) (best : O
       · exact slowLastP_ok f serial fuel next _ hf
 
 open Mutagen.Ogg Mutagen.OggInj in
-/-- the body of `findLastP` for ANY window `data` (the last 65536 bytes in `findLastP`): MutagenError only.
-`findLastP` itself cannot be unfolded in a checked proof: its body contains `f.length - 65536` with the literal, and the
-kernel unfolds `Nat.sub` on it 65536 times (deep recursion) as soon as the definition is opened — so the step from this
-lemma to `findLastP f serial` is the hypothesis `hlast` of `loadRaw_err` / `oggLoadPure_clean` below.  With the window
-as a parameter (`findLastPW w`, `findLastP := findLastPW 65536`, as `Info.OggC.findLastW`) it is this lemma. -/
-theorem findLastBody_clean (f : Bytes) (serial : Nat) (data : Bytes) (e : PyErr)
-    (h : (match Info.OggC.rindex Info.OggC.oggS data with
-      | none => Except.error PyErr.mutagen
-      | some index =>
-        match Info.OggC.fastPage data index with
-        | some p =>
-          if p.serial = serial ∧ p.position ≠ -1 then
-            if p.last = true then Except.ok (some p) else slowLastP f serial (List.length f + 1) 0 (some p)
-          else slowLastP f serial (List.length f + 1) 0 none
-        | none => slowLastP f serial (List.length f + 1) 0 none) = Except.error e) : e = .mutagen := by
-  have hs : ∀ best, ∃ r, slowLastP f serial (f.length + 1) 0 best = .ok r :=
-    fun best => slowLastP_ok f serial _ 0 best (by omega)
-  split at h
-  · cases h; rfl
-  · split at h
-    · split at h
-      · split at h
-        · cases h
-        · obtain ⟨r, hr⟩ := hs (some ‹_›); rw [hr] at h; cases h
-      · obtain ⟨r, hr⟩ := hs none; rw [hr] at h; cases h
-    · obtain ⟨r, hr⟩ := hs none; rw [hr] at h; cases h
+/-- `find_last` by file position raises MutagenError only: it IS `Info.OggC.findLast` (`findLastP_link`) -/
+theorem findLastP_clean (f : Bytes) (serial : Nat) : Clean (findLastP f serial) := by
+  intro e h
+  rw [findLastP_link] at h
+  exact Info.OggC.findLast_classes f serial e h
 
 open Mutagen.Ogg Mutagen.OggInj in
 /-- what the info constructor raises inside the `try` of `load` -/
@@ -188,7 +168,7 @@ theorem infoP_err (c : Codec) (f : Bytes) (e : PyErr) (h : infoP c f = .error e)
     · cases h
 
 open Mutagen.Ogg Mutagen.OggInj in
-theorem loadRaw_err (c : Codec) (f : Bytes) (hlast : ∀ serial, Clean (findLastP f serial)) (e : PyErr)
+theorem loadRaw_err (c : Codec) (f : Bytes) (e : PyErr)
     (h : loadRaw c f = .error e) : e = .eof ∨ e = .mutagen ∨ e = .value := by
   unfold loadRaw at h
   split at h
@@ -202,21 +182,178 @@ theorem loadRaw_err (c : Codec) (f : Bytes) (hlast : ∀ serial, Clean (findLast
       · rename_i e' he; cases h; exact Or.inr (Or.inl (loadComment_err _ _ _ he))
       · split at h
         · split at h
-          · rename_i e' he; cases h; exact Or.inr (Or.inl (hlast _ _ he))
+          · rename_i e' he; cases h; exact Or.inr (Or.inl (findLastP_clean _ _ _ he))
           · cases h; exact Or.inr (Or.inl rfl)
           · cases h
         · cases h
 
 open Mutagen.Ogg Mutagen.OggInj in
-/-- `OggFileType.load` on the bytes, every codec, every byte string: ok or the format's error — given that of
-`find_last` (`hlast`, see `findLastBody_clean`) -/
-theorem oggLoadPure_clean (c : Codec) (f : Bytes) (hlast : ∀ serial, Clean (findLastP f serial)) : Clean (loadPure c f) := by
+/-- `OggFileType.load` on the bytes, every codec, every byte string: ok or the format's error -/
+theorem oggLoadPure_clean (c : Codec) (f : Bytes) : Clean (loadPure c f) := by
   intro e h
   unfold loadPure at h
   split at h
   · cases h
   · rename_i e' he
-    rcases loadRaw_err c f hlast e' he with h1 | h1 | h1 <;> subst h1 <;> simp [loadCaught, PyErr.isIO] at h <;> exact h.symm
+    rcases loadRaw_err c f e' he with h1 | h1 | h1 <;> subst h1 <;> simp [loadCaught, PyErr.isIO] at h <;> exact h.symm
+
+/-! ### Ogg: the two models of `OggFileType.load` agree
+
+`OggInj.loadPure c` (identification page, comments, last page) and `Info.<Codec>.parse` (info constructor and
+`_post_tags`) — when the first is ok, so is the second: same page search, `idCheck` refuses what the constructor refuses
+(Proofs/Container/OggInjectLoadLink.lean), same `find_last`. -/
+
+theorem both_fst {α β : Type} (a : Except PyErr α) (b : Except PyErr β) (h : ∀ v, a = .ok v → ∃ w, b = .ok w) :
+    (both a b).map Prod.fst = a := by
+  cases a with
+  | error e => rfl
+  | ok v =>
+    obtain ⟨w, hw⟩ := h v rfl
+    subst hw; rfl
+
+open Mutagen.Ogg Mutagen.OggInj in
+/-- what an ok pure load says about its parts -/
+theorem loadPure_ok_parts (c : Codec) (f : Bytes) (l : Loaded) (h : loadPure c f = .ok l) :
+    ∃ page pos needLast, infoFound c f = .ok (page, pos) ∧ idCheck c page = .ok needLast ∧
+      (needLast = true → ∃ lp, findLastP f page.serial = .ok (some lp)) := by
+  unfold loadPure at h
+  split at h
+  · rename_i v hv
+    unfold loadRaw at hv
+    split at hv
+    · cases hv
+    · rename_i page needLast pos hi
+      rw [infoP_eq] at hi
+      split at hi
+      · cases hi
+      · rename_i page' pos' hf
+        split at hi
+        · cases hi
+        · rename_i nl hid
+          simp only [Except.ok.injEq, Prod.mk.injEq] at hi
+          obtain ⟨rfl, rfl, rfl⟩ := hi
+          refine ⟨_, _, _, hf, hid, ?_⟩
+          intro hn
+          split at hv
+          · cases hv
+          · split at hv
+            · cases hv
+            · rw [if_pos hn] at hv
+              split at hv
+              · cases hv
+              · cases hv
+              · rename_i lp hlp; exact ⟨lp, hlp⟩
+  · split at h <;> cases h
+
+theorem map_ok_inv {α β : Type} {r : Except PyErr α} {g : α → β} {b : β} (h : r.map g = .ok b) : ∃ a, r = .ok a ∧ g a = b := by
+  cases r with
+  | error e => cases h
+  | ok a => cases h; exact ⟨a, rfl, rfl⟩
+
+open Mutagen.Ogg Mutagen.OggInj in
+theorem vorbisOfPage_serial (page : Page) (i : Info.Vorbis.Info) (h : vorbisOfPage page = .ok i) : i.serial = page.serial := by
+  unfold vorbisOfPage at h
+  simp only [] at h
+  repeat' split at h
+  all_goals first | (cases h; rfl) | cases h
+
+open Mutagen.Ogg Mutagen.OggInj in
+theorem opusOfPage_serial (page : Page) (i : Info.Opus.Info) (h : opusOfPage page = .ok i) : i.serial = page.serial := by
+  unfold opusOfPage at h
+  simp only [] at h
+  repeat' split at h
+  all_goals first | (cases h; rfl) | cases h
+
+open Mutagen.Ogg Mutagen.OggInj in
+theorem speexOfPage_serial (page : Page) (i : Info.Speex.Info) (h : speexOfPage page = .ok i) : i.serial = page.serial := by
+  unfold speexOfPage at h
+  simp only [] at h
+  repeat' split at h
+  all_goals first | (cases h; rfl) | cases h
+
+open Mutagen.Ogg Mutagen.OggInj in
+theorem theoraOfPage_serial (page : Page) (i : Info.Theora.Info) (h : theoraOfPage page = .ok i) : i.serial = page.serial := by
+  unfold theoraOfPage at h
+  simp only [] at h
+  repeat' split at h
+  all_goals first | (cases h; rfl) | cases h
+
+open Mutagen.Ogg Mutagen.OggInj in
+theorem flacOfPage_serial (page : Page) (i : Info.OggFlac.Info) (h : flacOfPage page = .ok i) : i.serial = page.serial := by
+  unfold flacOfPage at h
+  simp only [] at h
+  repeat' split at h
+  all_goals first | (cases h; rfl) | cases h
+
+open Mutagen.Ogg Mutagen.OggInj in
+theorem vorbis_agree (f : Bytes) (l : Loaded) (h : loadPure .vorbis f = .ok l) : ∃ i, Info.Vorbis.parse f = .ok i := by
+  obtain ⟨page, pos, nl, hf, hid, hl⟩ := loadPure_ok_parts _ f l h
+  rw [(idCheck_link page).1] at hid
+  obtain ⟨i, hi, hn⟩ := map_ok_inv hid
+  obtain ⟨lp, hlp⟩ := hl hn.symm
+  rw [findLastP_link, ← vorbisOfPage_serial page i hi] at hlp
+  have hinit : Info.Vorbis.init f = .ok i := by rw [vorbis_init_link, hf]; exact hi
+  unfold Info.Vorbis.parse Info.Vorbis.raw
+  rw [hinit]
+  simp only [Info.Vorbis.post, hlp]
+  exact ⟨_, rfl⟩
+
+open Mutagen.Ogg Mutagen.OggInj in
+theorem opus_agree (f : Bytes) (l : Loaded) (h : loadPure .opus f = .ok l) : ∃ i, Info.Opus.parse f = .ok i := by
+  obtain ⟨page, pos, nl, hf, hid, hl⟩ := loadPure_ok_parts _ f l h
+  rw [(idCheck_link page).2.1] at hid
+  obtain ⟨i, hi, hn⟩ := map_ok_inv hid
+  obtain ⟨lp, hlp⟩ := hl hn.symm
+  rw [findLastP_link, ← opusOfPage_serial page i hi] at hlp
+  have hinit : Info.Opus.init f = .ok i := by rw [opus_init_link, hf]; exact hi
+  unfold Info.Opus.parse Info.Opus.raw
+  rw [hinit]
+  simp only [Info.Opus.post, hlp]
+  exact ⟨_, rfl⟩
+
+open Mutagen.Ogg Mutagen.OggInj in
+theorem speex_agree (f : Bytes) (l : Loaded) (h : loadPure .speex f = .ok l) : ∃ i, Info.Speex.parse f = .ok i := by
+  obtain ⟨page, pos, nl, hf, hid, hl⟩ := loadPure_ok_parts _ f l h
+  rw [(idCheck_link page).2.2.1] at hid
+  obtain ⟨i, hi, hn⟩ := map_ok_inv hid
+  obtain ⟨lp, hlp⟩ := hl hn.symm
+  rw [findLastP_link, ← speexOfPage_serial page i hi] at hlp
+  have hinit : Info.Speex.init f = .ok i := by rw [speex_init_link, hf]; exact hi
+  unfold Info.Speex.parse Info.Speex.raw
+  rw [hinit]
+  simp only [Info.Speex.post, hlp]
+  exact ⟨_, rfl⟩
+
+open Mutagen.Ogg Mutagen.OggInj in
+theorem theora_agree (f : Bytes) (l : Loaded) (h : loadPure .theora f = .ok l) : ∃ i, Info.Theora.parse f = .ok i := by
+  obtain ⟨page, pos, nl, hf, hid, hl⟩ := loadPure_ok_parts _ f l h
+  rw [(idCheck_link page).2.2.2.1] at hid
+  obtain ⟨i, hi, hn⟩ := map_ok_inv hid
+  obtain ⟨lp, hlp⟩ := hl hn.symm
+  rw [findLastP_link, ← theoraOfPage_serial page i hi] at hlp
+  have hinit : Info.Theora.init f = .ok i := by rw [theora_init_link, hf]; exact hi
+  unfold Info.Theora.parse Info.Theora.raw
+  rw [hinit]
+  simp only [Info.Theora.post, hlp]
+  exact ⟨_, rfl⟩
+
+open Mutagen.Ogg Mutagen.OggInj in
+theorem oggflac_agree (f : Bytes) (l : Loaded) (h : loadPure .flac f = .ok l) : ∃ i, Info.OggFlac.parse f = .ok i := by
+  obtain ⟨page, pos, nl, hf, hid, hl⟩ := loadPure_ok_parts _ f l h
+  rw [(idCheck_link page).2.2.2.2] at hid
+  obtain ⟨i, hi, hn⟩ := map_ok_inv hid
+  have hinit : Info.OggFlac.init f = .ok i := by rw [flac_init_link, hf]; exact hi
+  unfold Info.OggFlac.parse Info.OggFlac.raw
+  rw [hinit]
+  simp only [Info.OggFlac.post]
+  by_cases ht : i.totalSamples ≠ 0
+  · rw [if_pos ht]; exact ⟨_, rfl⟩
+  · rw [if_neg ht]
+    have ht' : i.totalSamples = 0 := by omega
+    obtain ⟨lp, hlp⟩ := hl (by rw [← hn]; simp [ht'])
+    rw [findLastP_link, ← flacOfPage_serial page i hi] at hlp
+    rw [hlp]
+    exact ⟨_, rfl⟩
 
 /-! ### MP4: the pure load -/
 
